@@ -68,14 +68,14 @@ PROPS = {
     },
     'C09': {
         'modules': ['SE.Props.C09', 'SE.Gen.TieLine'],
-        'streams': [{'component': 'parse_c09', 'info_comparable': True}, {'component': 'binary', 'confirm': True}],
+        'streams': [{'component': 'parse_c09', 'info_comparable': True}, {'component': 'binary', 'confirm': True}, {'component': 'parse_exh', 'info_comparable': True}],
         'level': 'proof',
         'trusted_base': ["strconv.ParseFloat results are shipped by the harness (oracle `pf`)"],
         'assumptions': [],
     },
     'C10': {
         'modules': ['SE.Props.C10', 'SE.Gen.TieLine'],
-        'streams': [{'component': 'parse_c10', 'info_comparable': True}],
+        'streams': [{'component': 'parse_c10', 'info_comparable': True}, {'component': 'parse_exh', 'info_comparable': True}],
         'level': 'proof',
         'trusted_base': ["strconv.ParseFloat results are shipped by the harness (oracle `pf`)"],
         'assumptions': [],
